@@ -138,6 +138,16 @@ func (propC11) Gen(r *Rng, tier string) *World {
 		w.Cfg.Vars[i].Reg = false // registration happens through the history
 	}
 	if len(explicit) > 0 && r.P(0.7) {
+		if r.P(0.2) {
+			// an alias: the caller gives a second name the key of an existing one
+			// (uid / user_id). Programs never mention the alias and a binding that
+			// holds it gives it its twin's value, so by-name reading is unaffected;
+			// what must still hold is that GetOrRegisterKey never hands a key in use
+			// to a further name.
+			twin := sortedKeys16(explicit)[r.Intn(len(explicit))]
+			w.Extra = map[string]string{"alias": "al_" + twin, "twin": twin}
+			explicit["al_"+twin] = explicit[twin]
+		}
 		w.Steps = append(w.Steps, Step{Op: "setkeys", Keys: explicit})
 	}
 	if undefined {
@@ -216,6 +226,11 @@ func (propC11) Gen(r *Rng, tier string) *World {
 			p := Plan{Bind: map[string]V{}}
 			for _, v := range w.Cfg.Vars {
 				p.Bind[v.Name] = rawValue(g, v.Ty)
+				if v.Ty != TBool && r.P(0.04) { // never a direct operand of and/or (the documented domain)
+					// bound, to nil: a value like any other to read by name (both
+					// fetchers hold it; it is not "unavailable")
+					p.Bind[v.Name] = VNil()
+				}
 			}
 			target := pi
 			if r.P(0.3) {
@@ -283,6 +298,15 @@ func (f recFetcher) Set(k eval.VariableKey, s string, v eval.Value) error {
 }
 func (f recFetcher) Cached(k eval.VariableKey, s string) bool { return f.inner.Cached(k, s) }
 
+func sortedKeys16(m map[string]int16) []string {
+	names := make([]string, 0, len(m))
+	for n := range m {
+		names = append(names, n)
+	}
+	sort.Strings(names)
+	return names
+}
+
 func keyMapStr(m map[string]eval.VariableKey) string {
 	names := make([]string, 0, len(m))
 	for n := range m {
@@ -315,6 +339,8 @@ func (propC11) Run(w *World, st *Stats) (vv *Violation) {
 	trees := map[int]*Node{} // the optimised tree of each compiled program, as Dump shows it
 	consts := w.Cfg.ConstVals()
 
+	alias, twin := w.Extra["alias"], w.Extra["twin"]
+
 	checkRegistry := func(step int, s Step) *Violation {
 		// existing assignments unchanged
 		for n, k := range ref {
@@ -329,7 +355,9 @@ func (propC11) Run(w *World, st *Stats) (vv *Violation) {
 		// injective
 		seen := map[eval.VariableKey]string{}
 		for n, k := range cc.VariableKeyMap {
-			if o, dup := seen[k]; dup {
+			if o, dup := seen[k]; dup && (n == alias && o == twin || n == twin && o == alias) {
+				continue // the caller's own alias pair
+			} else if dup {
 				a, b := n, o
 				if a > b {
 					a, b = b, a
@@ -417,6 +445,9 @@ func (propC11) Run(w *World, st *Stats) (vv *Violation) {
 				vals[n] = v.Go()
 				norm[n] = FromGo(v.Norm())
 			}
+			if tv, ok := vals[twin]; ok && alias != "" && si%2 == 0 {
+				vals[alias] = tv // a binding may hold the alias too, with its twin's value
+			}
 			// the exported normalisation helpers agree with the documented table
 			if s.Op == "eval" {
 				tv := eval.ToValueMap(vals)
@@ -478,6 +509,14 @@ func (propC11) Run(w *World, st *Stats) (vv *Violation) {
 				}
 				ctx.VariableFetcher = recFetcher{inner: ctx.VariableFetcher, log: &log}
 				got, gerr = e.Eval(ctx)
+				// every referenced variable is bound, so every one is available to
+				// TryEval through whichever fetcher NewCtxFromVars picked: it reads
+				// the same values by name and must come to the same outcome
+				tgot, tgerr := e.TryEval(eval.NewCtxFromVars(cc, vals))
+				st.Evals++
+				if (gerr == nil) != (tgerr == nil) || gerr == nil && !ValEq(got, tgot) {
+					return viol(w, "tryeval-differs", "step %d: %s under keys {%s} with every variable bound: Eval returns %s err=%v, TryEval returns %s err=%v", si, prog.Src(), keyMapStr(cc.VariableKeyMap), ValStr(got), gerr, ValStr(tgot), tgerr)
+				}
 			}
 			st.Evals++
 			evals++
